@@ -199,6 +199,84 @@ func scenario(cfg wl.Config, c cprog, h hprog, variant string) *mc.Scenario {
 	return &mc.Scenario{Name: name, Body: body, Check: check, Model: sched.Deviation, NoCache: true}
 }
 
+// chain: RPC A is a stream ended by cancelling its context; RPC B is issued right away on the
+// same connection and is itself abandoned by a canceller thread at an arbitrary point - in
+// particular while it is still waiting for A's stream to finish (soft cancel) or before its
+// invoke is written; then the probe.
+func chainScenario(cfg wl.Config, aSteps string, bKind string) *mc.Scenario {
+	name := fmt.Sprintf("chain[%s | A=stream(%s)/cancel-inline ; B=%s/cancel-thread ; probe]", cfg, aSteps, bKind)
+	body := func() {
+		env := wl.NewEnv(cfg, runHandler(hprog{Steps: "R"}))
+		f := map[string]any{"probe": "not-issued"}
+		vs.Go("client", func() {
+			ctxA, cancelA := context.WithCancel(context.Background())
+			if sa, err := env.Conn.NewStream(ctxA, "/w", enc.Bytes{}); err == nil {
+				for i, st := range aSteps {
+					if st == 'S' {
+						out := enc.Payload('a', 0, byte(i), enc.MinPayload)
+						_ = sa.MsgSend(&out, enc.Bytes{})
+					}
+				}
+			}
+			wl.Cancel(cancelA)
+			ctxB, cancelB := context.WithCancel(context.Background())
+			vs.Go("cancellerB", func() { wl.Cancel(cancelB) })
+			if bKind == "unary" {
+				in, out := enc.Payload('b', 0, 0, enc.MinPayload), []byte(nil)
+				_ = env.Conn.Invoke(ctxB, "/w", enc.Bytes{}, &in, &out)
+			} else if sb, err := env.Conn.NewStream(ctxB, "/w", enc.Bytes{}); err == nil {
+				out := enc.Payload('b', 0, 0, enc.MinPayload)
+				_ = sb.MsgSend(&out, enc.Bytes{})
+			}
+			wl.Cancel(cancelB)
+			f["workloadDone"] = true
+			f["probe"] = "blocked"
+			sched.Freeze() // both RPCs have ended: the probe runs under the default schedule
+			ok, err := env.Probe("p")
+			switch {
+			case err != nil:
+				f["probe"], f["probeErr"], f["closedAtReturn"] = "err", err.Error(), env.ConnClosed()
+			case ok:
+				f["probe"] = "ok"
+			default:
+				f["probe"] = "wrong"
+			}
+		})
+		sched.Quiesce()
+		f["closedAtEnd"] = env.ConnClosed()
+		f["blockedAtEnd"] = wl.BlockedSummary(sched.BlockedNow())
+		sched.Observef("probe=%v closed=%v", f["probe"], f["closedAtEnd"])
+		for k, v := range f {
+			env.Facts[k] = v
+		}
+		env.Teardown()
+	}
+	return &mc.Scenario{Name: name, Body: body, Check: probeCheck, Model: sched.Deviation, NoCache: true}
+}
+
+func probeCheck(e *sched.Exec) string {
+	if m := wl.Basic(e); m != "" {
+		return m
+	}
+	f := wl.GetEnv(e).Facts
+	closedEnd, _ := f["closedAtEnd"].(bool)
+	switch f["probe"] {
+	case "ok", "not-issued":
+		return ""
+	case "blocked":
+		if !closedEnd {
+			return fmt.Sprintf("wedged: probe never completed on a connection that does not report closed; blocked=%v", f["blockedAtEnd"])
+		}
+		return fmt.Sprintf("probe hangs although the connection reports closed; blocked=%v", f["blockedAtEnd"])
+	case "err":
+		if cr, _ := f["closedAtReturn"].(bool); !cr && !closedEnd {
+			return fmt.Sprintf("probe failed (%v) on a connection that still reports healthy", f["probeErr"])
+		}
+		return ""
+	}
+	return fmt.Sprintf("probe result %v", f["probe"])
+}
+
 func stepStrings(alpha string, maxLen int, atMostOne byte) []string {
 	out := []string{""}
 	frontier := []string{""}
@@ -274,6 +352,22 @@ func plans(tier string) []mc.Plan {
 						}
 						ps = append(ps, mc.Plan{Scen: scenario(cfg, c, h, v), Bounds: bounds, Split: len(bounds) > 2})
 					}
+				}
+			}
+		}
+	}
+	// two abandoned RPCs in a row before the probe
+	for _, soft := range []bool{true, false} {
+		for _, aSteps := range []string{"", "S"} {
+			for _, bKind := range []string{"stream", "unary"} {
+				cfg := wl.Config{Soft: soft, Pipe: tr.Options{Cap: -1}}
+				bounds := []int{0, 1}
+				if soft && (bKind == "unary" || tier == "thorough") {
+					bounds = []int{0, 1, 2}
+				}
+				ps = append(ps, mc.Plan{Scen: chainScenario(cfg, aSteps, bKind), Bounds: bounds, Split: len(bounds) > 2})
+				if tier == "thorough" && soft {
+					ps = append(ps, mc.Plan{Scen: chainScenario(wl.Config{Soft: true, Pipe: tr.Options{Cap: 0}}, aSteps, bKind), Bounds: []int{0, 1, 2}, Split: true})
 				}
 			}
 		}
